@@ -17,9 +17,28 @@ TRUSTED_BASE = ['copy.deepcopy and input non-mutation are observed by snapshots,
 ASSUMPTIONS = ['Dom_C01 (evaluated on the diff): no structural edit or leaf change whose tuple container sits inside another tuple, no set edited inside a tuple (findings F4b, F4c)']
 
 
+def shares_mutable(v):
+    """one mutable container object at two places of the value (finding F67: a Delta writes through both)"""
+    seen = set()
+
+    def walk(x):
+        if isinstance(x, (list, dict, set)):
+            if id(x) in seen:
+                return True
+            seen.add(id(x))
+        if isinstance(x, dict):
+            return any(walk(y) for y in x.values())
+        if isinstance(x, (list, tuple)):
+            return any(walk(y) for y in x)
+        return False
+    return walk(v)
+
+
 def in_domain(t1, t2, **kw):
     """Dom_C01, evaluated on the diff tree (see ASSUMPTIONS)"""
     from deepdiff import DeepDiff
+    if shares_mutable(t1):
+        return False, 'F67: the base holds one mutable object at two places'
     tree = DeepDiff(t1, t2, view='tree', **kw)
     for cat, levels in tree.items():
         if not hasattr(levels, '__iter__') or cat == 'deep_distance':
@@ -310,6 +329,7 @@ def run(ctx, impl_only=False):
         'F45': lambda: same({1}, {True}) and same([{0, 'a'}], [{False, 'a'}]),
         'F4b': lambda: same([([], {1})], [([], {1, 'b'})]),
         'F4c': lambda: same([((1, 2), 0)], [((1, 3), 0)]),
+        'F67': lambda: (lambda x: same([x, x], [[1], [2]]))([1]),
     }
     for fid, fn in wit.items():
         ctx.evaluations += 1
